@@ -1,6 +1,7 @@
 package protocol
 
 import (
+	"bufio"
 	"bytes"
 	"reflect"
 )
@@ -167,4 +168,57 @@ func VH_C20_FlexHeaderTags(apiKey, version, extra int) {
 	_, msg, err := ReadResponse(conn, ApiKey(apiKey), int16(version))
 	vhAssert(vhAny(msg != nil, err != nil), "flex-header-outcome-is-message-or-error")
 	vhReach("c20-flex-header-tags")
+}
+
+// vhPlainReader hides every method of the reader it wraps except Read.
+type vhPlainReader struct{ r *bytes.Reader }
+
+func (p vhPlainReader) Read(b []byte) (int, error) { return p.r.Read(b) }
+
+// C20-H6: a record set nested in a message (RecordSet.ReadFrom called with the message's decoder, as for fetch and
+// produce bodies). The decoder may take 4+L bytes; the size field of the record set is symbolic (negative, short,
+// exact, larger than what is left by any amount), the L bytes after it are symbolic, and the bytes of the next frame
+// follow. Whatever the size says, the decoder's budget never goes negative, nothing of the next frame is consumed,
+// and a size beyond the enclosing message is an error. kind 0: buffered source (protocol.Conn); kind 1: plain reader.
+func VH_C20_NestedRecordSet(L, magic, kind int) {
+	vhAllocLimit(vhC20AllocLimit)
+	vhCRCMismatch(true)
+	size := vhInt32("record_set_size")
+	body := vhBytes("records", L)
+	if L > 16 {
+		if magic >= 0 {
+			vhAssume(body[16] == byte(magic))
+		} else {
+			vhAssume(body[16] > 2)
+		}
+	}
+	if magic == 1 && L >= 26 {
+		for i := 18; i < 26; i++ {
+			vhAssume(body[i] == 0) // first timestamp: not a length field (see VH_C20_RecordSet)
+		}
+	}
+	data := []byte{byte(size >> 24), byte(size >> 16), byte(size >> 8), byte(size)}
+	data = append(data, body...)
+	data = append(data, 0xA1, 0xA2, 0xA3, 0xA4, 0xA5, 0xA6, 0xA7, 0xA8)
+	rd := bytes.NewReader(data)
+	var src *bufio.Reader
+	d := &decoder{remain: 4 + L}
+	if kind == 0 {
+		src = bufio.NewReader(rd)
+		d.reader = src
+	} else {
+		d.reader = vhPlainReader{rd}
+	}
+	rs := RecordSet{}
+	_, err := rs.ReadFrom(d)
+	vhAssert(d.remain >= 0, "decoder-budget-never-negative")
+	consumed := len(data) - rd.Len()
+	if src != nil {
+		consumed -= src.Buffered()
+	}
+	vhAssert(consumed <= 4+L, "next-frame-untouched")
+	if int(size) > L {
+		vhAssert(err != nil, "record-set-larger-than-its-message-is-an-error")
+	}
+	vhReach("c20-nested-recordset-done")
 }
